@@ -55,18 +55,29 @@ fn gen_states<T: TElem>(g: &mut Sm64, n_chains: usize, len: usize, n_params: usi
     let mut scales = vec![];
     for _ in 0..n_params {
         // (integers: sometimes magnitudes whose squares exceed the range of 32-bit integers)
-        let s = if T::INT && g.chance(0.3) { g.uniform(5_000.0, 30_000.0) } else if T::INT { g.uniform(2.0, 40.0) } else if g.chance(0.3) { g.log_uniform(1e-6, 1e4) } else { g.log_uniform(1e-2, 1e2) };
+        // (floats: sometimes scales near the ends of what single-precision squares can hold - any
+        // location/scale within f32 conditioning is in scope)
+        let s = if T::INT && g.chance(0.3) { g.uniform(5_000.0, 30_000.0) } else if T::INT { g.uniform(2.0, 40.0) } else if g.chance(0.12) { g.log_uniform(1e12, 3e16) } else if g.chance(0.1) { g.log_uniform(1e-16, 1e-12) } else if g.chance(0.3) { g.log_uniform(1e-6, 1e4) } else { g.log_uniform(1e-2, 1e2) };
         scales.push(s);
         let ratio = if g.chance(0.7) { g.uniform(-3.0, 3.0) } else { g.uniform(-30.0, 30.0) };
         locs.push(if T::INT && s > 1000.0 { (ratio.abs().min(3.0) + 3.0) * s } else if T::INT { (ratio.abs() * s).min(2000.0) + 3.0 * s } else { ratio * s });
     }
     let stay = g.uniform(0.0, 0.8); // probability that a state repeats (a "rejection")
+    // float chains that sit on zeros and flip their sign (a reflection x -> -x at a zero coordinate
+    // is not a move: -0.0 == 0.0)
+    let zeros = !T::INT && g.chance(0.12);
     let mut out = vec![];
     for _ in 0..n_chains {
         let shift: Vec<f64> = (0..n_params).map(|j| if g.chance(0.3) { g.normal() * scales[j] } else { 0.0 }).collect();
         let mut chain: Vec<Vec<T>> = vec![];
         for t in 0..len {
-            if t > 0 && g.chance(stay) {
+            if zeros && t > 0 && g.chance(0.5) {
+                // every zero coordinate changes sign, the others stay
+                let prev = chain[t - 1].clone();
+                chain.push(prev.iter().map(|x| if *x == T::zero() { T::of(-0.0) * T::of(if g.bool() { 1.0 } else { -1.0 }) } else { *x }).collect());
+            } else if zeros {
+                chain.push((0..n_params).map(|j| if g.chance(0.7) { T::of(if g.bool() { 0.0 } else { -0.0 }) } else { T::of(locs[j] + scales[j] * g.normal()) }).collect());
+            } else if t > 0 && g.chance(stay) {
                 let prev = chain[t - 1].clone();
                 chain.push(prev);
             } else {
@@ -93,7 +104,8 @@ fn chain_case<T: TElem>(ctx: &Ctx, rep: &mut Report, case: u64, g: &mut Sm64) {
             if g.chance(0.5) {
                 states[c][0].clone() // first update repeats the initial state: indicator 0, unambiguous
             } else {
-                states[c][0].iter().map(|x| *x + T::one()).collect() // every coordinate differs: indicator 1
+                // every coordinate differs, at any magnitude: indicator 1
+                states[c][0].iter().map(|x| if *x == T::zero() { T::one() } else { *x + *x }).collect()
             }
         })
         .collect();
